@@ -34,10 +34,12 @@ class Probe:
         nn.init.zeros_(self.lin.weight)
         self.inner = torch.optim.SGD(self.lin.parameters(), lr=1.0)
         self.n_inner = 0
+        self.order = []
         orig = self.inner.step
 
         def counted(*a, **k):
             self.n_inner += 1
+            self.order.append('I')
             return orig(*a, **k)
         self.inner.step = counted
         kw = dict(noise_multiplier=float(case['nm']), expected_batch_size=1, loss_reduction='sum')
@@ -60,6 +62,7 @@ class Probe:
         def acounted(**k):
             r = astep(**k)
             self.n_acc += 1
+            self.order.append('A:%r:%r' % (k['noise_multiplier'], k['sample_rate']))
             return r
         self.acc.step = acounted
         self.opt.attach_step_hook(self.acc.get_optimizer_hook_fn(sample_rate=1.0))
@@ -76,6 +79,9 @@ class Probe:
     def do(self, name, arg):
         w0 = self.lin.weight.detach().clone()
         i0, a0 = self.n_inner, self.n_acc
+        self.order = []
+        self.nm_before = float(self.opt.noise_multiplier)
+        self.c_before = float(self.opt.max_grad_norm)
         code = 0
         with NormalLog(zero=True) as nl:
             try:
@@ -104,20 +110,28 @@ class Probe:
                 exact = False
             ids += [i] * max(k, 0)
         nparam = sum(1 for c in nl.calls if c['shape'] == [1, D])
+        self.last_extra = {'order': list(self.order), 'stds': [c['std'] for c in nl.calls], 'nm': self.nm_before, 'C': self.c_before}
         return [code, self.n_inner - i0, nparam, self.n_acc - a0] + sorted(ids), exact
 
 
 def run_case(case):
     p = Probe(case)
-    obs, ok = [], True
-    for name, arg in case['ops']:
+    obs, ok, extra = [], True, []
+    trunc = None
+    for i, (name, arg) in enumerate(case['ops']):
         o, ex = p.do(name, arg)
         obs.append(o)
+        extra.append(p.last_extra)
         ok = ok and ex
+        if name == 'FB' and o[0] != 0:
+            # an exception escaped a backward hook: the module's activation stack / forward counters are now
+            # inconsistent (not part of the ledger model) -- the history is compared up to and including this op
+            trunc = i + 1
+            break
     hist = []
     for (a, b, n) in p.acc.history:
         hist += [int(round(a)), int(round(b)), int(n)]
-    return {'obs': obs + [hist], 'decodable': ok}
+    return {'obs': obs + [hist], 'decodable': ok, 'extra': extra, 'hist_raw': [[float(a), float(b), int(n)] for (a, b, n) in p.acc.history], 'truncated_at': trunc}
 
 
 if __name__ == '__main__':
